@@ -874,7 +874,7 @@ PROPS = {
     "C12": dict(engines=[H("keys", 70, 900), H("keysatomic", 40, 500)],
                 rule="keyed histories over a 6-key alphabet; non-trivial = >=3 key operations"),
     "C13": dict(engines=[dict(engine="persist", kind="trunc", quick=8, thorough=40), dict(engine="wire", quick=120, thorough=1500, states_quick=16, states_thorough=160)],
-                level_text="theorems about the prefix-safe parsers and the log / restore prefix property (Wire.v, every prefix, no bound) + fault enumeration on the implementation: every sampled prefix (every byte in the thorough tier) of real snapshot and log files is restored; s2 framing is trusted",
+                level_text="theorems about the prefix-safe parsers and the restore prefix property for every prefix of a snapshot file (no bound): commit frame and serialized buffer (WireCommit.v), state stream as writeState lays it out (WireState.v), s2 framing around both (S2Frame.v; the block compressor is an arbitrary function of each chunk) - all three diffed byte for byte against the real writers / readers - + fault enumeration on the implementation: every sampled prefix (every byte in the thorough tier) of real snapshot and log files is restored",
                 rule="snapshot files (random history, 0-3 transactions committed during the snapshot) and commit-log files cut at: the first 24 bytes, the state/log boundary +-6, the last 200 bytes, 120 random offsets (every offset in the thorough tier); every cut is a distinct case"),
     "C14": dict(engines=[dict(engine="persist", kind="fault", quick=3, thorough=9), S("snap", 300, 3000, locks=False)],
                 rule="destination writers failing at a chosen call index or byte budget, once or forever, on empty / single-block / multi-block collections, with a transaction committing during the snapshot; every plan is a distinct case"),
